@@ -53,9 +53,6 @@ LeafDepths(t, n, d, fuel) ==
   IF fuel = 0 \/ ~IsInt(t, n) THEN {d}
   ELSE UNION {LeafDepths(t, Page(t, n).children[i], d + 1, fuel - 1) : i \in DOMAIN Page(t, n).children}
 
-RECURSIVE Flatten(_)
-Flatten(ss) == IF ss = <<>> THEN <<>> ELSE ss[1] \o Flatten(Tail(ss))
-
 RECURSIVE InOrderLeaves(_, _, _)  \* leaf page numbers left to right
 InOrderLeaves(t, n, fuel) ==
   IF fuel = 0 \/ ~Has(t, n) THEN <<>>
@@ -65,11 +62,16 @@ InOrderLeaves(t, n, fuel) ==
             THEN Flatten([i \in DOMAIN p.children |-> InOrderLeaves(t, p.children[i], fuel - 1)])
             ELSE <<>>
 
-RECURSIVE Chain(_, _, _)          \* pages visited by following next_leaf from page n
-Chain(t, n, fuel) ==
-  IF n = 0 \/ fuel = 0 THEN <<>>
+RECURSIVE Chain(_, _, _)          \* pages visited by following next_leaf from page n (a pointer out of the file ends
+Chain(t, n, fuel) ==              \* the chain: that is KindsOk's business; a page that is not a leaf is visited and ends it)
+  IF n = 0 \/ fuel = 0 \/ ~Has(t, n) THEN <<>>
   ELSE IF ~IsLeaf(t, n) THEN <<n>>
   ELSE <<n>> \o Chain(t, Page(t, n).next, fuel - 1)
+
+RECURSIVE Dedup(_, _)             \* first occurrences, in order
+Dedup(s, seen) ==
+  IF s = <<>> THEN <<>>
+  ELSE IF s[1] \in seen THEN Dedup(Tail(s), seen) ELSE <<s[1]>> \o Dedup(Tail(s), seen \cup {s[1]})
 
 ChildRefs(t) ==   \* all child pointers as <<parent, index, child>>
   UNION { {<<t.pages[i].no, j, t.pages[i].children[j]>> : j \in DOMAIN t.pages[i].children}
@@ -130,9 +132,10 @@ SeparatorsBound(t) ==
 \* all leaves at the same depth
 UniformDepth(t) == Cardinality(LeafDepths(t, t.root, 0, Fuel(t))) <= 1
 
-\* the leaf chain from the leftmost leaf visits exactly the leaves of the tree, in key (left to right) order
+\* the leaf chain from the leftmost leaf visits exactly the leaves of the tree, each once, in key (left to right) order
+\* (a leaf hanging under two parents is NoSharing's business: it counts once here)
 LeafChain(t) ==
-  LET inorder == InOrderLeaves(t, t.root, Fuel(t)) IN
+  LET inorder == Dedup(InOrderLeaves(t, t.root, Fuel(t)), {}) IN
   IF inorder = <<>> THEN TRUE ELSE Chain(t, inorder[1], Fuel(t) + 1) = inorder
 
 \* no page is reachable twice: every page has at most one parent pointer, the root has none
